@@ -359,7 +359,7 @@ ELEMENTS = [1, 2, 3, 6, 7, 8, 9, 11, 14, 16, 17, 26, 35]
 TITLES = ["water", "Created by sim", "frame", "a title with  spaces", "x", "12", "$$", "END of story",
           "@<TRIPOS>", "3", "H 0 0 0", "MODEL", "two lines\nas a PDB file with two TITLE records gives", "$$$$", "END",
           "@<TRIPOS>MOLECULE", " leading and trailing blanks ", "dos line ending\r\nsecond line", "old mac\rline", "tab\tinside",
-          "form\x0cfeed"]
+          "form\x0cfeed", " ", "  \t", ""]
 
 
 def random_mol_fields(rng, natom=None, with_bonds=False, with_charges=False, title=True,
